@@ -2,6 +2,15 @@
 """Generate /verif/MANIFEST.json from the per-property table below (kept here so the manifest stays valid)."""
 import json, os
 CLAIMS = {
+ "C01": ("proof", "obligation checking on the symbolic exits of the two generic decode bodies (guards, buffers, hard-decision functions, loop shape)",
+   "Every Ok/Err exit of flooding::decode and horizontal_layered::decode (the only two bodies behind all 36 factory decoders, cf. C18) is an obligation: a success exit must be guarded by a true syndrome test on the same buffer with an equivalent hard-decision function and nothing in between; the failure exit returns the word the last test rejected; counts are 0 / loop variable of 1..=limit / limit; the shortcut tests the raw LLRs with non-positive-means-1 before initialisation; check_llrs covers every row's parity; hard_decisions is positional; lengths are asserted; the hard-decision hooks of all 24 arithmetics take &self. These imply the success/failure clauses for every arithmetic, matrix and LLR vector on which node processing returns.",
+   "Not covered: panic-freedom of the arithmetic node processing on the stated domain (value dependent). Trusted: Iterator::any/filter/count/map/collect semantics."),
+ "C03": ("other", "provenance of every Messages::send argument, store-constructor arguments, call order and self-field effect summaries on the polymorphic schedule bodies",
+   "Decides routing (source = node being processed, destination = msg.dest, value = msg.value, slot selection by source tag), store topology from iter_col/iter_row, unconditional phase order (check pass, variable pass, syndrome test; initialise after the failed shortcut), two-phase field effects, layered row order with one shared &mut LLR vector and positional initialisation. Holds for any plugged-in arithmetic because the bodies are analysed polymorphically. Equivalence of results with a reference BP and posterior exactness on forests are behavioural and not decided.",
+   "Trusted: Iterator zip/enumerate ordering. The per-arithmetic emission discipline is C04."),
+ "C10": ("proof", "forward must-analysis (definite re-initialisation) over the structured decode bodies with callee summaries; scratch-vector prefix discipline; who-may-call on stored decoders",
+   "Statelessness is decided as: every field modified under decode is fully overwritten in a call before that call reads it, on every path including zero iterations. Obligations: one per per-call field and schedule, one per callee summary, one per arithmetic scratch use (24 impls), one per holder use. All must discharge.",
+   "Trusted: the table of five full-overwrite idioms, the equal-length assertion at the top of decode, the topology/one-message-per-neighbour premises decided in C03/C04. User-defined arithmetics are assumed stateless."),
  "C02": ("other", "panic-site audit (MIR sites discharged on symbolic path conditions) + effect tracing + reader/writer agreement",
    "Decides the structural clauses: Encoder::from_h never panics for 1 <= rows <= cols (every MIR assert / panicking call reachable, incl. is_staircase and gauss_reduction, is discharged by a guard on the path or a reviewed argument) and maps NotInvertible to an error; encode returns [message | parity] with the message operand unmodified; the positions is_staircase accepts are exactly the equations the accumulator arm solves (generator = H0 copied unchanged, parity[j] += parity[j-1] for j in 1..len); dense arm column map, generator slice and product. Gauss-Jordan correctness, H c = 0, success-iff-invertible and linearity are algebraic value properties and are not decided.",
    "Trusted: the panic model of std/ndarray functions (ldpcv/panics.py), reviewed ledger entries (pivot non-zero by data, slice/swap bounds), the caller's contract on message length."),
